@@ -1,8 +1,9 @@
 #!/bin/bash
 # usage: try_mutants.sh <ID> [runs]  -- applies each /tmp/mutants-<ID>/m*.diff to /repo, runs the check, reverts.
 ID=$1; RUNS=${2:-0}
-cd /repo || exit 2
+R=${VERIF_REPO:-/repo}; export VERIF_REPO=$R; cd $R || exit 2
 if [ -n "$(git status --porcelain)" ]; then echo "repo not clean"; exit 2; fi
+cp /verif/evidence/$ID.json /verif/evidence/$ID.json.bak 2>/dev/null
 for d in /tmp/mutants-$ID/m*.diff; do
   n=$(basename $d .diff)
   if ! git apply --check $d 2>/dev/null; then echo "$ID $n: DOES-NOT-APPLY"; continue; fi
@@ -14,4 +15,5 @@ for d in /tmp/mutants-$ID/m*.diff; do
   cls=$(echo "$out" | grep "class=" | head -2 | tr '\n' ' ' | cut -c1-220)
   echo "$ID $n: exit=$rc violations=$v $cls"
   [ $rc -eq 2 ] && echo "$out" | tail -5
+  cp /verif/evidence/$ID.json.bak /verif/evidence/$ID.json 2>/dev/null
 done
